@@ -8,6 +8,8 @@ From Coq Require Import List NArith ZArith Bool Lia Arith.
 From GmsmVerif Require Import Lib.Outcome EC.ECAffine EC.SM2Curve SM3.SM3Spec
      SM2.SM2Bytes SM2.SM2BytesProofs SM2.SM2Spec SM2.DER SM2.SM2Model SM2.SM2SignProofs SM2.DERProofs SM2.SM2Group.
 From GmsmVerif Require Import SM2.SM2ParamsTie Gen.SM2Params Gen.SM2SigParams.
+From GmsmVerif Require Import SM2.SM2SignExtra.
+From GmsmVerif Require SM2.SM2GroupMin.   (* minimal-premise versions; used qualified *)
 Import ListNotations.
 Open Scope Z_scope.
 
@@ -237,6 +239,69 @@ Theorem C01_source_constants_tied :
 Proof. exact (conj curve_params_tied sig_params_tied). Qed.
 Print Assumptions C01_source_constants_tied.
 
+(* ---- 8. a different public key ----------------------------------------------------------------------------
+   For fixed (e, r, s) with t = (r+s) mod n: a curve point P is accepted iff [t]P = R - [s]G for a curve
+   point R with x(R) = r - e (mod n).  Premises: p prime, associativity. *)
+Theorem C01_accepting_keys_characterised :
+  SM2GroupMin.P_prime -> SM2GroupMin.Add_assoc -> forall pub e r s,
+    sm2_valid (Some pub) = true ->
+    (verify_spec (Some pub) e r s <->
+     1 <= r < sm2_n /\ 1 <= s < sm2_n /\ (r + s) mod sm2_n <> 0 /\
+     exists R, sm2_valid R = true /\ x_of R mod sm2_n = (r - e) mod sm2_n /\
+               sm2_mul ((r + s) mod sm2_n) (Some pub) = sm2_add R (sm2_neg (sm2_base_mul s))).
+Proof. exact SM2GroupMin.verify_spec_keys. Qed.
+Print Assumptions C01_accepting_keys_characterised.
+
+(* ... so a key [d]G (d in [1, n-1]) that accepts is one of the explicitly listed keys [t^-1](R - [s]G); every
+   other key is rejected.  Premises: all five (n prime for t^-1, [n]G = O for the reduction mod n). *)
+Theorem C01_accepting_keys_listed :
+  SM2GroupMin.P_prime -> SM2GroupMin.Add_assoc -> SM2GroupMin.G_order_divides_n ->
+  SM2GroupMin.G_multiples_finite -> SM2GroupMin.N_prime -> forall d e r s,
+    1 <= d < sm2_n -> verify_spec (sm2_base_mul d) e r s ->
+    exists R, sm2_valid R = true /\ x_of R mod sm2_n = (r - e) mod sm2_n /\
+              sm2_base_mul d = sm2_mul (modinv ((r + s) mod sm2_n) sm2_n) (sm2_add R (sm2_neg (sm2_base_mul s))).
+Proof. exact SM2GroupMin.accepted_key_listed. Qed.
+Print Assumptions C01_accepting_keys_listed.
+
+(* ... and there are at most four such R: x(R) is v = (r-e) mod n or v + n (p < 2n), and two curve points
+   with the same x are equal or opposite (p prime) *)
+Theorem C01_accepting_keys_candidates :
+  SM2GroupMin.P_prime ->
+  (forall R v, sm2_valid R = true -> R <> None -> 0 <= v < sm2_n -> x_of R mod sm2_n = v ->
+               x_of R = v \/ x_of R = v + sm2_n) /\
+  (forall x y1 y2, sm2_valid (Some (x, y1)) = true -> sm2_valid (Some (x, y2)) = true ->
+                   Some (x, y2) = Some (x, y1) \/ Some (x, y2) = sm2_neg (Some (x, y1))).
+Proof. intros Hp. split; [exact SM2GroupMin.candidate_x|exact (SM2GroupMin.same_x_two_points Hp)]. Qed.
+Print Assumptions C01_accepting_keys_candidates.
+
+(* ---- 9. minimal premises of the theorems stated above with the bundled SM2Facts ---------------------------
+   2b needs only "p prime"; completeness needs all five components (p prime, n prime, associativity,
+   [n]G = O, [k]G finite for 0 < k < n); "G on the curve" is computed, not assumed. *)
+Theorem C01_verify_is_standard_on_curve_min :
+  SM2GroupMin.P_prime -> forall pub e r s,
+    sm2_valid (Some pub) = true -> (verify_api pub e r s <-> verify_spec (Some pub) e r s).
+Proof. exact SM2GroupMin.verify_api_is_spec. Qed.
+Print Assumptions C01_verify_is_standard_on_curve_min.
+
+Theorem C01_verify_complete_min :
+  SM2GroupMin.P_prime -> SM2GroupMin.Add_assoc -> SM2GroupMin.G_order_divides_n ->
+  SM2GroupMin.G_multiples_finite -> SM2GroupMin.N_prime -> forall fuel d e rho r s rho',
+    1 <= d <= sm2_n - 2 ->
+    sign_loop fuel d e rho = Ok (r, s, rho') ->
+    verify_core (ScalarBaseMult d) e r s = true /\ 1 <= r < sm2_n /\ 1 <= s < sm2_n.
+Proof. exact SM2GroupMin.sign_then_verify_core. Qed.
+Print Assumptions C01_verify_complete_min.
+
+(* ---- 10. outside the domain: d = n-1 (gcd(d+1, n) <> 1) makes Sm2Sign panic (nil big.Int), as /repo does --- *)
+Theorem C01_sign_invalid_key_panics :
+  forall fuel d e rho,
+    Z.gcd (d + 1) sm2_n <> 1 -> (40 <= length rho)%nat ->
+    let k := nonce_at rho 0 in
+    let r := (e + x_of (sm2_base_mul k)) mod sm2_n in
+    r <> 0 -> r + k <> sm2_n -> sign_loop (S fuel) d e rho = Panic.
+Proof. exact sign_loop_invalid_key. Qed.
+Print Assumptions C01_sign_invalid_key_panics.
+
 (* ---- non-vacuity: concrete instances, evaluated ----------------------------------------------------------- *)
 (* key d = 1, digest 5, a stream whose first attempt gives k = 2 *)
 Example C01_sign_example :
@@ -273,3 +338,35 @@ Example C01_za_example :
   ZA (sm2_Gx, sm2_Gy) default_uid = Ok (za_spec (sm2_Gx, sm2_Gy) default_uid) /\
   ZA (5, 7) (repeat 0%N 16) = Ok (za_spec (5, 7) (repeat 0%N 16)).
 Proof. vm_compute. split; reflexivity. Qed.
+
+(* the three retry branches of the signing loop, reached with crafted digests (the model takes e directly;
+   through the API they need an SM3 preimage): the first nonce k = 2 is sent back to A3, the result is the
+   standard's pair for the next nonce k = 3, and both 40-byte attempts are consumed *)
+Definition ex_chunk (v : N) : list byte := repeat 0%N 39 ++ [v].
+Definition ex_rho : list byte := ex_chunk 1 ++ ex_chunk 2.
+
+Example C01_retry_r_zero :
+  let e := (- x_of (sm2_base_mul 2)) mod sm2_n in
+  nonce_at ex_rho 0 = 2 /\ nonce_at ex_rho 1 = 3 /\
+  (e + x_of (sm2_base_mul 2)) mod sm2_n = 0 /\ sign_with_nonce 5 e 2 = None /\
+  exists r s, sign_with_nonce 5 e 3 = Some (r, s) /\ sign_loop 3 5 e ex_rho = Ok (r, s, []).
+Proof. vm_compute. repeat split; try reflexivity. eexists. eexists. split; reflexivity. Qed.
+
+Example C01_retry_r_plus_k_is_n :
+  let e := (sm2_n - 2 - x_of (sm2_base_mul 2)) mod sm2_n in
+  (e + x_of (sm2_base_mul 2)) mod sm2_n + 2 = sm2_n /\ sign_with_nonce 5 e 2 = None /\
+  exists r s, sign_with_nonce 5 e 3 = Some (r, s) /\ sign_loop 3 5 e ex_rho = Ok (r, s, []).
+Proof. vm_compute. repeat split; try reflexivity. eexists. eexists. split; reflexivity. Qed.
+
+Example C01_retry_s_zero :
+  let e := (2 - x_of (sm2_base_mul 2)) mod sm2_n in
+  (e + x_of (sm2_base_mul 2)) mod sm2_n = 2 /\ (modinv (1 + 1) sm2_n * (2 - 2 * 1)) mod sm2_n = 0 /\
+  sign_with_nonce 1 e 2 = None /\
+  exists r s, sign_with_nonce 1 e 3 = Some (r, s) /\ sign_loop 3 1 e ex_rho = Ok (r, s, []).
+Proof. vm_compute. repeat split; try reflexivity. eexists. eexists. split; reflexivity. Qed.
+
+(* d = n-1: the panic branch; d = n-2 (the largest valid key) signs *)
+Example C01_invalid_key_example :
+  sign_loop 3 (sm2_n - 1) 7 ex_rho = Panic /\ Z.gcd (sm2_n - 1 + 1) sm2_n <> 1 /\
+  Z.gcd (sm2_n - 2 + 1) sm2_n = 1 /\ exists r s, sign_loop 3 (sm2_n - 2) 7 ex_rho = Ok (r, s, ex_chunk 2).
+Proof. vm_compute. repeat split; try reflexivity; try discriminate. eexists. eexists. reflexivity. Qed.
